@@ -60,6 +60,8 @@ pub fn dispatch(fs: &[String]) -> String {
                 fields.iter().map(|(k, n)| format!("{}:{}", esc(k), n)).collect::<Vec<_>>().join(",")
             )
         }
+        "css" => crate::cssops::css(a(1), a(2)),
+        "css_septable" => crate::cssops::septable(),
         "group" => group(a(1)),
         _ => "bad-op".to_string(),
     }
